@@ -307,3 +307,66 @@ MUTANTS += [
                 if (take) {''')],
      'expect': {'C08': None}},
 ]
+
+# ---- C06: cursor navigation vs the reference cursor (extracted machine) ----------------------------------------
+MUTANTS += [
+    {'name': 'c06_f4_reverted', 'edits': [(P, '''                else if (state->flags == BINSON_STATE_IN_OBJ_EXPECTING_FIELD) {
+                    state->flags = BINSON_STATE_IN_OBJ_EXPECTING_VALUE;
+                }
+                break;
+            case BINSON_STATE_PARSED_ARRAY_END:''', '''                else {
+                    state->flags = BINSON_STATE_IN_OBJ_EXPECTING_VALUE;
+                }
+                break;
+            case BINSON_STATE_PARSED_ARRAY_END:''')],
+     'expect': {'C06': 'leave_array'}},
+    {'name': 'c06_f5_reverted', 'edits': [(P, '''                    else {
+                        /* Back in the enclosing array: no container element is pending. */
+                        state->flags = BINSON_STATE_IN_ARRAY_1;
+                    }
+''', '')],
+     'expect': {'C06': 'next'}},
+    {'name': 'c06_scalar_in_array_does_not_stop', 'edits': [(P, '''                else {
+                    CLEARBITMASK(scan_flags, BINSON_ADVANCE_VALUE);
+                }
+            }
+        }''', '''                else if (next_state != BINSON_STATE_PARSED_BOOLEAN) {
+                    CLEARBITMASK(scan_flags, BINSON_ADVANCE_VALUE);
+                }
+            }
+        }''')],
+     'expect': {'C06': 'next'}},
+    {'name': 'c06_container_in_array_not_stopped_at', 'edits': [(P, '''                    if (CHECKBITMASK(state->flags, BINSON_STATE_IN_ARRAY_1)) {
+                        state->flags = BINSON_STATE_IN_ARRAY_2;
+                        CLEARBITMASK(scan_flags, BINSON_ADVANCE_VALUE);
+                    }''', '''                    if (CHECKBITMASK(state->flags, BINSON_STATE_IN_ARRAY_1)) {
+                        state->flags = BINSON_STATE_IN_ARRAY_2;
+                        if (next_state == BINSON_STATE_PARSED_OBJECT_BEGIN) {
+                            CLEARBITMASK(scan_flags, BINSON_ADVANCE_VALUE);
+                        }
+                    }''')],
+     'expect': {'C06': 'next'}},
+    {'name': 'c06_leave_object_keeps_depth_at_root', 'edits': [(P, '''                    else if (parser->depth == 1) {
+                        parser->depth--;
+                        parser->current_state = &parser->state[0];''', '''                    else if (parser->depth == 1) {
+                        parser->current_state = &parser->state[0];''')],
+     'expect': {'C06': 'leave_object'}},
+    {'name': 'c06_leave_array_maps_false_to_false', 'edits': [(P, '''    bool ret = _advance(parser, BINSON_ADVANCE_LEAVE_ARRAY);
+    if (!ret) {
+        return (parser->error_flags == BINSON_ERROR_NONE);
+    }''', '''    bool ret = _advance(parser, BINSON_ADVANCE_LEAVE_ARRAY);
+    if (!ret) {
+        return false;
+    }''')],
+     'expect': {'C06': 'leave_array'}},
+    {'name': 'c06_name_does_not_stop_lookup_level', 'edits': [(P, '''                    CLEARBITMASK(scan_flags, BINSON_ADVANCE_VALUE);
+                }
+
+                state->current_name.bptr = consumed.bptr;''', '''                    if (state->array_depth == 0 && parser->depth < 3) {
+                        CLEARBITMASK(scan_flags, BINSON_ADVANCE_VALUE);
+                    }
+                }
+
+                state->current_name.bptr = consumed.bptr;''')],
+     'expect': {'C06': 'next'}},
+]
